@@ -82,9 +82,13 @@ def _gen_action(rng, nfn):
 def gen_case(rng, tier, index):
     nfn = rng.randint(3, 8)
     fns = []
+    rets = []
     for _ in range(nfn):
         prog = [_gen_action(rng, nfn) for _ in range(rng.choice([0, 0, 1, 1, 2, 3, 4]))]
         fns.append(prog)
+        # what the handler returns: only a boolean event may be cut short (by False), only a relay event is
+        # updated (by a dict); for every other combination the result must not influence the dispatch
+        rets.append(rng.choice(["none"] * 7 + ["false", "true", "zero", "dict"]))
     regs = []
     for _ in range(rng.randint(3, 18)):
         regs.append([rng.randrange(nfn), rng.choice(EVENTS), rng.choice(PRIOS), _kw(rng), rng.choice(CONDS),
@@ -96,7 +100,7 @@ def gen_case(rng, tier, index):
                   rng.random() < 0.5] for _ in range(rng.choice([1, 1, 2, 3]))]
         acts = [_gen_action(rng, nfn) for _ in range(rng.choice([0, 0, 1]))]
         roots.append([ctx, rng.choice([0, 0, 0.05, 1.0]), posts, acts])
-    return {"fns": fns, "regs": regs, "roots": roots}
+    return {"fns": fns, "regs": regs, "roots": roots, "rets": rets}
 
 
 def run_case(case):
@@ -195,8 +199,13 @@ def run_case(case):
                     st["budget"] -= 1
                     for a in case["fns"][fid]:
                         do_action(a)
-                chk.on_exit(rid, pid, None)
-                return None
+                ret = (case.get("rets") or [])[fid] if fid < len(case.get("rets") or []) else "none"
+                result = {"none": None, "false": False, "true": True, "zero": 0,
+                          "dict": {"y": 5, "relayed_by": fid}}[ret]
+                if result is not None:
+                    st["non_none_results"] = st.get("non_none_results", 0) + 1
+                chk.on_exit(rid, pid, result)
+                return result
             fn.__name__ = "F%d" % fid
             return fn
 
@@ -205,7 +214,7 @@ def run_case(case):
                 chk.on_callback_enter(pid, kwargs)
                 p = chk.posts.get(pid)
                 if p is not None:
-                    exp = dict(p.kwargs)
+                    exp = dict(p.relay_kwargs if p.type == "relay" else p.kwargs)
                     got = {k: v for k, v in kwargs.items() if k != "ev_result"}
                     chk.clauses["kwargs_merge"] += 1
                     if got != exp:
@@ -334,6 +343,7 @@ def run_case(case):
         "".join(str(min(len(p), 3)) for p in case["fns"]), min(len(case["regs"]), 12) // 3, min(ninv, 60) // 6,
         st["depth_seen"], min(chk.obs["callbacks"], 6), min(chk.obs["removed_mid_dispatch_called"], 3))
     chk.obs["contexts_used"] = len(st["ctx_used"])
+    chk.obs["handler_results_not_none"] = st.get("non_none_results", 0)
     chk.obs["run_now_from_handler"] = st.get("run_now", 0)
     chk.obs["switch_report_from_handler"] = st.get("inner_switch", 0)
     return {"violations": chk.viol, "clauses": chk.clauses, "shape": shape,
